@@ -2156,16 +2156,17 @@ Local Open Scope nat_scope.
 Local Open Scope list_scope.
 
 (* ------------------------------------------------------------------------------------------- *)
-(* the pre-pass leaves comment-free lines alone                                                 *)
+(* the pre-pass leaves comment-free lines without trailing white space alone                    *)
+(* (fix F17k right-strips every story line: the identity on printed lines)                      *)
 (* ------------------------------------------------------------------------------------------- *)
 Lemma prepass_identity : forall lines closer in_story skip,
-  Forall (fun l => clean l = true) lines ->
+  Forall (fun l => clean l = true /\ rstrip l = l) lines ->
   strip_comments_outside_python lines closer in_story skip = lines.
 Proof.
   induction lines as [|l r IH]; intros closer in_story skip H; [reflexivity|].
-  inversion H as [|? ? Hl Hr]; subst.
+  inversion H as [|? ? [Hl Hrs] Hr]; subst.
   cbn [strip_comments_outside_python]. destruct skip as [|k].
-  - rewrite (sic_clean l Hl). cbn [snd nonempty]. cbv zeta.
+  - rewrite (sic_clean l Hl). cbn [snd nonempty]. cbv zeta. rewrite Hrs.
     destruct closer as [c|].
     + destruct (String.eqb (strip l) c); rewrite IH by exact Hr; reflexivity.
     + destruct (in_story || startswith l ":: " || startswith (strip l) "@start ").
@@ -2675,7 +2676,7 @@ Proof.
   assert (Hl : lines_ok (print_story s)) by (apply forallb_Forall, Hlines).
   unfold parse.
   rewrite prepass_identity
-    by (eapply Forall_impl; [|exact Hl]; intros l H; apply line_ok_parts in H; tauto).
+    by (eapply Forall_impl; [|exact Hl]; intros l H; apply line_ok_parts in H; exact H).
   unfold print_story in *. set (lines := print_passages (ss_passages s)) in *.
   assert (Hall : Forall (fun p => passage_ok pp p = true /\ passage_steps p) (ss_passages s)).
   { apply Forall_forall. intros p Hin. split; [|apply Hsteps, Hin].
@@ -2771,9 +2772,13 @@ Qed.
 Lemma map_id_Forall : forall A (f : A -> A) l, Forall (fun x => f x = x) l -> map f l = l.
 Proof. induction 1 as [|x l Hx _ IH]; [reflexivity|]. cbn [map]. rewrite Hx, IH. reflexivity. Qed.
 
+(* an opener at column 0 takes nothing off the body lines (fix F17j) *)
+Lemma without_opener_indent_col0 : forall l op, PB.ws_run op = 0 -> PB.without_opener_indent l op = l.
+Proof. intros l op H. unfold PB.without_opener_indent. rewrite H. reflexivity. Qed.
+
 Lemma py_new_go_run : forall fx start code acc k rest,
   Forall (fun l => String.eqb (strip l) "@endpy" = false) code ->
-  PB.py_new_go fx start (code ++ "@endpy" :: rest) acc k =
+  PB.py_new_go fx "@py:" start (code ++ "@endpy" :: rest) acc k =
   POk (join PB.nl (if fx then map PB.blank_to_empty (detect_and_strip_indentation (acc ++ code))
                    else detect_and_strip_indentation (acc ++ code)), S (k + List.length code)).
 Proof.
@@ -2781,6 +2786,7 @@ Proof.
   - cbn [app PB.py_new_go]. replace (String.eqb (strip "@endpy") "@endpy") with true by reflexivity.
     rewrite List.app_nil_r, Nat.add_0_r. reflexivity.
   - inversion H as [|? ? Hl Hc]; subst. cbn [app PB.py_new_go]. rewrite Hl.
+    rewrite (without_opener_indent_col0 l "@py:") by reflexivity.
     rewrite (IH (acc ++ [l]) (S k) rest Hc). rewrite <- List.app_assoc. cbn [app List.length].
     replace (S k + List.length code) with (k + S (List.length code)) by lia. reflexivity.
 Qed.
@@ -2848,7 +2854,7 @@ End PyItem.
 (* ------------------------------------------------------------------------------------------- *)
 (* a line of such a block, as written (without the 4 spaces) *)
 Definition join_line (l : string) : Prop :=
-  starts_ns l = true /\ rstrip l = l /\ PB.is_join_block_terminator l = false.
+  starts_ns l = true /\ rstrip l = l /\ PB.is_join_block_terminator l = false /\ startswith l "#" = false.
 
 Lemma marker_heads : forall m, In m PB.block_markers ->
   (exists q, m = String "@" q) /\ (exists q, PB.rstrip_colons m = String "@" q).
@@ -2884,20 +2890,21 @@ Proof.
     rewrite sapp_nil_r in *. unfold text_line_ok in Hok. do 3 (apply andb_prop in Hok; destruct Hok as [Hok ?]).
     destruct (plain_start_cons _ H0) as [c [r [E Hc]]]. rewrite E in *.
     assert (R : rstrip (String c r) = String c r) by (apply (rstrip_suffix ind4); [discriminate|exact Hrs]).
-    split; [|split; [exact R|apply plain_not_terminator; assumption]].
-    destruct (bad_start_facts c Hc) as [H0' _]. simpl. rewrite H0'. reflexivity.
+    split; [|split; [exact R|split; [apply plain_not_terminator; assumption|]]].
+    + destruct (bad_start_facts c Hc) as [H0' _]. simpl. rewrite H0'. reflexivity.
+    + destruct (bad_start_facts c Hc) as [_ [H1' _]]. cbn [startswith]. unfold ascii_eqb. rewrite H1'. reflexivity.
   - apply andb_prop in Hok. destruct Hok as [Hne Htr].
     assert (R : rstrip ("~ " ++ c)%string = ("~ " ++ c)%string) by (apply (rstrip_suffix ind4); [discriminate|exact Hrs]).
-    split; [reflexivity|split; [exact R|]].
+    split; [reflexivity|split; [exact R|split; [|reflexivity]]].
     unfold PB.is_join_block_terminator. rewrite strip_fixed; [|reflexivity|exact R]. reflexivity.
   - apply andb_prop in Hok. destruct Hok as [He Ht]. destruct add.
     + assert (R : rstrip ("@hook " ++ e ++ " " ++ t)%string = ("@hook " ++ e ++ " " ++ t)%string)
         by (apply (rstrip_suffix ind4); [discriminate|exact Hrs]).
-      split; [reflexivity|split; [exact R|]].
+      split; [reflexivity|split; [exact R|split; [|reflexivity]]].
       unfold PB.is_join_block_terminator. rewrite strip_fixed; [|reflexivity|exact R]. reflexivity.
     + assert (R : rstrip ("@unhook " ++ e ++ " " ++ t)%string = ("@unhook " ++ e ++ " " ++ t)%string)
         by (apply (rstrip_suffix ind4); [discriminate|exact Hrs]).
-      split; [reflexivity|split; [exact R|]].
+      split; [reflexivity|split; [exact R|split; [|reflexivity]]].
       unfold PB.is_join_block_terminator. rewrite strip_fixed; [|reflexivity|exact R]. reflexivity.
 Qed.
 
@@ -2915,10 +2922,11 @@ Proof.
   - cbn [map app List.length]. rewrite List.app_nil_r, Nat.add_0_r.
     destruct post as [|p post]; [reflexivity|]. cbn [PB.join_collect]. cbn in Hp. rewrite Hp. reflexivity.
   - inversion H as [|? ? Hl HBL]; subst. cbn [map app PB.join_collect].
-    destruct (strip_join_line l Hl) as [S1 S2]. destruct Hl as [L1 [L2 L3]].
+    destruct (strip_join_line l Hl) as [S1 S2]. destruct Hl as [L1 [L2 [L3 L4]]].
     assert (T : PB.is_join_block_terminator (indent_always l) = false).
     { unfold PB.is_join_block_terminator in *. rewrite S1. rewrite S2 in L3. exact L3. }
-    rewrite T, S1. assert (N : PB.nonempty l = true) by (destruct l; [discriminate|reflexivity]). rewrite N. cbn [negb].
+    unfold PB.is_comment_line.
+    rewrite T, S1, L4. assert (N : PB.nonempty l = true) by (destruct l; [discriminate|reflexivity]). rewrite N. cbn [negb orb].
     unfold indent_always at 1. rewrite (ws_run_app ind4 l ind4_space).
     replace (String.length ind4 + PB.ws_run l <=? 0) with false by (symmetry; apply Nat.leb_gt; cbn; lia).
     rewrite (IH (acc ++ [indent_always l]) (S k) post HBL Hp). rewrite <- List.app_assoc. cbn [app List.length].
@@ -2943,21 +2951,37 @@ Proof.
 Qed.
 
 (* the second loop of extract_join_choice_block on the lines of the items *)
-Lemma join_parse_items : forall blk start j content exec,
+(* fix F17m: the lines of a printed block are not comment lines, so all of them are kept, each with its index *)
+Lemma join_kept_plain : forall BL j, Forall (fun l => PB.is_comment_line l = false) BL ->
+  map snd (PB.join_kept BL j) = BL /\ List.length (map fst (PB.join_kept BL j)) = List.length BL.
+Proof.
+  induction BL as [|l BL IH]; intros j H; [split; reflexivity|].
+  inversion H as [|? ? Hl HBL]; subst. cbn [PB.join_kept]. rewrite Hl. cbn [map snd fst List.length].
+  destruct (IH (S j) HBL) as [E1 E2]. rewrite E1, E2. split; reflexivity.
+Qed.
+
+Lemma join_parse_items : forall blk start js content exec,
   forallb join_item_ok blk = true -> Forall join_line (print_items blk) ->
   Forall (fun l => clean l = true) (print_items blk) ->
-  exists exec', PB.join_parse ParseBlocksInst.real_linefns start (print_items blk) j content exec =
+  List.length js = List.length (print_items blk) ->
+  exists exec', PB.join_parse ParseBlocksInst.real_linefns start (combine js (print_items blk)) content exec =
                 POk (content ++ c_items blk, exec').
 Proof.
-  induction blk as [|it blk IH]; intros start j content exec Hok Hjl Hcl.
-  - exists exec. cbn [print_items PB.join_parse c_items]. rewrite List.app_nil_r. reflexivity.
+  induction blk as [|it blk IH]; intros start js content exec Hok Hjl Hcl Hjs.
+  - exists exec. cbn [print_items]. destruct js; cbn [combine PB.join_parse c_items]; rewrite List.app_nil_r; reflexivity.
   - cbn [forallb] in Hok. apply andb_prop in Hok. destruct Hok as [Hit Hok].
+    assert (Hjs' : exists j js', js = j :: js' /\ List.length js' = List.length (print_items blk)).
+    { cbn [print_items] in Hjs. rewrite app_length in Hjs.
+      destruct it; try discriminate; cbn [print_item List.length] in Hjs;
+        (destruct js as [|j js']; [discriminate|]); exists j, js'; (split; [reflexivity|]);
+        cbn [List.length] in Hjs; lia. }
+    destruct Hjs' as [j [js' [-> Hjs']]].
     cbn [print_items] in Hjl, Hcl. apply Forall_app in Hjl. destruct Hjl as [Hj1 Hj2].
     apply Forall_app in Hcl. destruct Hcl as [Hc1 Hc2].
     cbn [print_items c_items].
     destruct it as [ps glue| |c|c|brs|v c body chs|t a|n a|attrs|add e t|]; try discriminate;
       cbn [print_item app] in *; inversion Hj1 as [|? ? Hl _]; subst; inversion Hc1 as [|? ? Hcl1 _]; subst;
-      destruct (strip_join_line _ Hl) as [_ Hs]; cbn [PB.join_parse];
+      destruct (strip_join_line _ Hl) as [_ Hs]; cbn [combine PB.join_parse];
       match goal with |- context [strip ?x] => replace (strip x) with x by (symmetry; exact Hs) end.
     + (* text *)
       cbn [join_item_ok] in Hit. apply andb_prop in Hit. destruct Hit as [Hg Hit]. apply negb_true_iff in Hg. subst glue.
@@ -2968,7 +2992,7 @@ Proof.
       rewrite E. cbn [PB.nonempty negb startswith]. unfold ascii_eqb. rewrite H1', H5', H2'. cbn [andb].
       rewrite <- E. cbn [PB.lf_content ParseBlocksInst.real_linefns].
       rewrite (parse_content_line_pieces false ps Hit Hcl1 H1). cbn [PB.at_line pbind].
-      destruct (IH start (S j) (content ++ c_pieces ps ++ [PB.tnl]) exec Hok Hj2 Hc2) as [exec' E'].
+      destruct (IH start js' (content ++ c_pieces ps ++ [PB.tnl]) exec Hok Hj2 Hc2 Hjs') as [exec' E'].
       exists exec'. rewrite E'. cbn [c_item]. rewrite <- !List.app_assoc. reflexivity.
     + (* ~ statement *)
       cbn [join_item_ok] in Hit. apply andb_prop in Hit. destruct Hit as [Hne Htr].
@@ -2980,7 +3004,7 @@ Proof.
       assert (Hcc : clean c = true)
         by (change (clean ("~ " ++ c)%string = true) in Hcl1; rewrite clean_app in Hcl1; apply andb_prop in Hcl1; tauto).
       rewrite (sic_clean c Hcc). cbn [fst].
-      destruct (IH start (S j) (content ++ [TPyStmt c]) (exec ++ [TPyStmt c]) Hok Hj2 Hc2) as [exec' E'].
+      destruct (IH start js' (content ++ [TPyStmt c]) (exec ++ [TPyStmt c]) Hok Hj2 Hc2 Hjs') as [exec' E'].
       exists exec'. rewrite E'. cbn [c_item]. rewrite <- !List.app_assoc. reflexivity.
     + (* hook *)
       cbn [join_item_ok] in Hit. apply andb_prop in Hit. destruct Hit as [He Ht].
@@ -2992,7 +3016,7 @@ Proof.
           by (symmetry; cbn [startswith append]; rewrite ?startswith_nil; reflexivity).
         unfold PB.hook_parts. change ("@hook " ++ e ++ " " ++ t)%string with ("@hook" ++ " " ++ e ++ " " ++ t)%string.
         rewrite (split_ws_3 "@hook" e t eq_refl He Ht).
-        destruct (IH start (S j) (content ++ [THook true e t]) (exec ++ [THook true e t]) Hok Hj2 Hc2) as [exec' E'].
+        destruct (IH start js' (content ++ [THook true e t]) (exec ++ [THook true e t]) Hok Hj2 Hc2 Hjs') as [exec' E'].
         exists exec'. rewrite E'. cbn [c_item]. rewrite <- !List.app_assoc. reflexivity.
       * replace (PB.nonempty ("@unhook " ++ e ++ " " ++ t)%string) with true by reflexivity. cbn [negb].
         replace (startswith ("@unhook " ++ e ++ " " ++ t)%string "#") with false by reflexivity.
@@ -3002,7 +3026,7 @@ Proof.
           by (symmetry; cbn [startswith append]; rewrite ?startswith_nil; reflexivity).
         unfold PB.hook_parts. change ("@unhook " ++ e ++ " " ++ t)%string with ("@unhook" ++ " " ++ e ++ " " ++ t)%string.
         rewrite (split_ws_3 "@unhook" e t eq_refl He Ht).
-        destruct (IH start (S j) (content ++ [THook false e t]) (exec ++ [THook false e t]) Hok Hj2 Hc2) as [exec' E'].
+        destruct (IH start js' (content ++ [THook false e t]) (exec ++ [THook false e t]) Hok Hj2 Hc2 Hjs') as [exec' E'].
         exists exec'. rewrite E'. cbn [c_item]. rewrite <- !List.app_assoc. reflexivity.
 Qed.
 
@@ -3039,8 +3063,14 @@ Proof.
   - rewrite <- E in *.
     assert (Hne : map indent_always (print_items blk) <> []) by (rewrite E; discriminate).
     destruct (map indent_always (print_items blk)) as [|m0 ML] eqn:EM; [congruence|]. rewrite <- EM.
+    assert (Hnc : Forall (fun l => PB.is_comment_line l = false) (map indent_always (print_items blk))).
+    { apply Forall_forall. intros l' Hin'. apply in_map_iff in Hin'. destruct Hin' as [l [<- Hin]].
+      rewrite Forall_forall in Hjl. specialize (Hjl l Hin). destruct (strip_join_line l Hjl) as [S1 _].
+      unfold PB.is_comment_line. rewrite S1. destruct Hjl as [_ [_ [_ L4]]]. exact L4. }
+    destruct (join_kept_plain _ 0 Hnc) as [K1 K2]. cbv zeta. rewrite K1.
     rewrite dedent_indent_always; [|rewrite E; discriminate|].
-    + destruct (join_parse_items blk (S (List.length pre)) 0 [] [] Hok Hjl Hcl) as [exec' E'].
+    + rewrite (map_length indent_always) in K2.
+      destruct (join_parse_items blk (S (List.length pre)) _ [] [] Hok Hjl Hcl K2) as [exec' E'].
       rewrite E'. cbn [pbind fst snd app]. exists exec'. reflexivity.
     + eapply Forall_impl; [|exact Hjl]. intros l [H1 _]. exact H1.
 Qed.
@@ -3427,10 +3457,22 @@ Qed.
 Lemma strip_indp : forall q l, pfx q -> strip (indp q l) = strip l.
 Proof. intros q [|c r] [Hq _]; [reflexivity|]. cbn [indp]. apply strip_app_ws, Hq. Qed.
 
+(* fix F17j: the opener's own indentation q comes off every body line that has it, i.e. the body is
+   read as it was written at column 0 *)
+Lemma without_opener_indp : forall q l op, all_space q = true -> PB.ws_run op = 0 ->
+  PB.without_opener_indent (indp q l) (q ++ op)%string = l.
+Proof.
+  intros q l op Hq Hop. unfold PB.without_opener_indent.
+  rewrite (ws_run_app q op Hq), Hop, Nat.add_0_r, take_app.
+  destruct q as [|a q']; [destruct l; reflexivity|]. cbn [PB.nonempty andb].
+  destruct l as [|c r]; [reflexivity|]. cbn [indp].
+  rewrite startswith_app_self. apply drop_app.
+Qed.
+
 Lemma py_new_go_run_q : forall q start code acc k rest,
   pfx q -> Forall (fun l => String.eqb (strip l) "@endpy" = false) code ->
-  PB.py_new_go true start (map (indp q) code ++ (q ++ "@endpy")%string :: rest) acc k =
-  POk (join PB.nl (map PB.blank_to_empty (detect_and_strip_indentation (acc ++ map (indp q) code))),
+  PB.py_new_go true (q ++ "@py:")%string start (map (indp q) code ++ (q ++ "@endpy")%string :: rest) acc k =
+  POk (join PB.nl (map PB.blank_to_empty (detect_and_strip_indentation (acc ++ code))),
        S (k + List.length code)).
 Proof.
   intros q start code. induction code as [|l code IH]; intros acc k rest Hq H.
@@ -3438,7 +3480,8 @@ Proof.
     replace (String.eqb (strip "@endpy") "@endpy") with true by reflexivity.
     rewrite List.app_nil_r, Nat.add_0_r. reflexivity.
   - inversion H as [|? ? Hl Hc]; subst. cbn [map app PB.py_new_go]. rewrite (strip_indp q l Hq), Hl.
-    rewrite (IH (acc ++ [indp q l]) (S k) rest Hq Hc). rewrite <- List.app_assoc. cbn [app List.length].
+    rewrite (without_opener_indp q l "@py:" (proj1 Hq) eq_refl).
+    rewrite (IH (acc ++ [l]) (S k) rest Hq Hc). rewrite <- List.app_assoc. cbn [app List.length].
     replace (S k + List.length code) with (k + S (List.length code)) by lia. reflexivity.
 Qed.
 
@@ -3458,7 +3501,9 @@ Proof.
   unfold PB.extract_py_new_syntax_v. rewrite nth_error_mid. rewrite (strip_app_ws q "@py:" Hq1).
   replace (String.eqb (strip "@py:") "@py:") with true by reflexivity. cbn [negb].
   rewrite skipn_mid. rewrite (py_new_go_run_q q _ code [] 1 post (conj Hq1 Hq2) He). cbn [app].
-  rewrite (dedent_indp q code (conj Hq1 Hq2) Hs Hf).
+  replace (detect_and_strip_indentation code) with code.
+  2:{ symmetry. rewrite <- (dedent_indp "" code pfx_nil Hs Hf) at 2. f_equal.
+      symmetry. apply map_id_Forall. apply Forall_forall. intros l _. destruct l; reflexivity. }
   assert (B : map PB.blank_to_empty code = code).
   { apply map_id_Forall. apply Forall_forall. intros l Hl. unfold py_ok in H. cbv zeta in H.
     apply andb_prop in H. destruct H as [H _]. rewrite forallb_forall in H. apply blank_to_empty_id, H, Hl. }
